@@ -16,7 +16,7 @@
 
    An edit of one of these functions that changes what it returns for some error value makes this
    file stop compiling even when no generated case reaches the difference. *)
-From Eino Require Import Base.Util Model.Errors Model.ErrorsGenLib.
+From Eino Require Import Base.Util Model.Errors Model.ErrorsGenLib Proofs.Errors.
 From Eino Require Gen.ErrorCode.
 Local Open Scope string_scope.
 
@@ -166,3 +166,69 @@ Example gen_internalError_Error_text :
   Gen.ErrorCode.internalError_Error (fun _ => "cause") (mkIe NodeRunError [] ["a"; "b"; "c"] (Leaf 0) true)
   = "[NodeRunError]" ++ nl ++ "cause" ++ nl ++ "------------------------" ++ nl ++ "node path: [a, b, c]".
 Proof. reflexivity. Qed.
+
+(* ------------------------------------------------------------------ the clauses of the property
+   about the wrappers, stated on the TRANSLATED code (corollaries of the agreement above and of
+   Proofs/Errors.v): whatever stack of the translated constructors the run machinery puts around a
+   node's error, errors.Is (non-wrapper targets), errors.As (custom types) and the payload of a
+   recovered panic give what they give on the node's own error; the translated wrapGraphNodeError
+   puts the key in front of the path the error already carries; both translated wrapping functions
+   hand an interrupt on as it is. *)
+Definition gen_apply_w (w : wrapper) (e : err) : err :=
+  match w with
+  | WNode k => Gen.ErrorCode.wrapGraphNodeError k e
+  | WStream a => Gen.ErrorCode.wrapStreamWrapperError a e
+  | WConcat a => Gen.ErrorCode.newStreamWrapperError a (Wrapf (Wrapf e))
+  | WGraphRun => Gen.ErrorCode.newGraphRunError e
+  | WWrapf => Wrapf e
+  end.
+
+Lemma gen_apply_ws_agrees : forall ws e, fold_right gen_apply_w e ws = apply_ws ws e.
+Proof.
+  induction ws as [|w ws IH]; intros e; [reflexivity|].
+  cbn [fold_right]. unfold apply_ws in *. cbn [fold_right]. rewrite IH.
+  destruct w; cbn [gen_apply_w apply_w].
+  - apply gen_wrapGraphNodeError_agrees.
+  - apply gen_wrapStreamWrapperError_agrees.
+  - rewrite gen_newStreamWrapperError_agrees. reflexivity.
+  - apply gen_newGraphRunError_agrees.
+  - reflexivity.
+Qed.
+
+Theorem gen_code_keeps_original_error : forall ws e,
+  (forall t, leaf_target t -> is_ t (fold_right gen_apply_w e ws) = is_ t e) /\
+  (forall ty, as_custom ty (fold_right gen_apply_w e ws) = as_custom ty e) /\
+  as_panic (fold_right gen_apply_w e ws) = as_panic e.
+Proof.
+  intros ws e. rewrite gen_apply_ws_agrees. repeat split.
+  - intros t Ht. apply is_through_wrappers; exact Ht.
+  - intros ty. apply as_custom_through_wrappers.
+  - apply as_panic_through_wrappers.
+Qed.
+
+Theorem gen_code_names_node : forall k e, Gen.ErrorCode.isInterruptError e = false ->
+  np_of (Gen.ErrorCode.wrapGraphNodeError k e) = k :: np_of e
+  /\ np_of (Gen.ErrorCode.newGraphRunError e) = []
+  /\ forall a, np_of (Gen.ErrorCode.wrapStreamWrapperError a e) = np_of e.
+Proof.
+  intros k e H. rewrite gen_isInterruptError_agrees in H.
+  rewrite gen_wrapGraphNodeError_agrees. repeat split.
+  - apply wrap_node_path; exact H.
+  - intros a. rewrite gen_wrapStreamWrapperError_agrees. apply wrap_stream_path.
+Qed.
+
+Theorem gen_code_passes_interrupts : forall e, Gen.ErrorCode.isInterruptError e = true ->
+  (forall k, Gen.ErrorCode.wrapGraphNodeError k e = e) /\ (forall a, Gen.ErrorCode.wrapStreamWrapperError a e = e).
+Proof.
+  intros e H. rewrite gen_isInterruptError_agrees in H.
+  destruct (interrupt_not_wrapped_lemma e H) as [H1 H2]. split.
+  - intros k. rewrite gen_wrapGraphNodeError_agrees. apply H1.
+  - intros a. rewrite gen_wrapStreamWrapperError_agrees. apply H2.
+Qed.
+
+Example gen_code_keeps_original_error_nonvacuous :
+  let e := Wrapf (Custom 1 7) in
+  let ws := [WNode "outer"; WStream StreamByTransform; WNode "sub"; WConcat TransformByInvoke; WWrapf] in
+  is_ (Custom 1 7) (fold_right gen_apply_w e ws) = true /\ as_custom 1 (fold_right gen_apply_w e ws) = Some 7%N
+  /\ np_of (fold_right gen_apply_w e ws) = ["outer"; "sub"].
+Proof. repeat split; vm_compute; reflexivity. Qed.
